@@ -274,12 +274,38 @@ Fixpoint subp_vals (t : ity) (sl : list slice) (xs : list Z) : option (list Z) :
 Definition sub_extents_p (t : ity) (e : extents) (sl : list slice) : option extents :=
   do v <- subp_vals t sl (extents_list t e); Some (ext_from_pack t (subp_pat sl (pat e)) v).
 
+(* [mdspan.sub.helpers] first_ / last_: detail::submdspan_first<IndexType, K>(slices...) and
+   detail::submdspan_last<K>(src, slices...) (instantiable for K > 0 since fix 9ae67a4), for the K-th slice
+   specifier [s] and the source extent [x] = src.extent(K).  The index branch of submdspan_last returns
+   static_cast<IndexType>(de_ice(sk)) + IndexType(1) in the PROMOTED type (the return type is deduced) *)
+Definition sub_first (t : ity) (s : slice) : Z :=
+  match s with
+  | SlFull => 0
+  | SlIndex k => cast t k
+  | SlPair a _ | SlCPair a _ => cast t a
+  end.
+Definition sub_last (t : ity) (x : Z) (s : slice) : option Z :=
+  match s with
+  | SlFull => Some (cast t x)
+  | SlIndex k => aadd t (cast t k) 1
+  | SlPair _ b | SlCPair _ b => Some (cast t b)
+  end.
+
 (** * span<T, Extent> as a window (offset, size) into the underlying sequence *)
 Record spanv := { s_off : Z; s_size : Z; s_ext : option Z }.   (* s_ext: Some n = static extent *)
 
-(* span(It first, size_type count): static_storage ignores the count, size() == Extent *)
+(* the storage of a span: static_storage ignores the count, size() == Extent *)
 Definition mk_span (ext : option Z) (ptr sz : Z) : spanv :=
   {| s_off := ptr; s_size := match ext with Some n => n | None => sz end; s_ext := ext |}.
+(* the constructors span(It first, size_type count), span(R&& r), span(span<U, N> const&): _storage{ptr, count} and
+   -- since fix 721a088 -- TETL_PRECONDITION(extent == dynamic_extent or count == extent).  The members below build
+   their results with [mk_span]: C19_span_ctor shows that their counts always equal the static extent they name, so
+   the constructor's check can never fire inside the library *)
+Definition sp_ctor (ext : option Z) (ptr sz : Z) : res spanv :=
+  match ext with
+  | Some n => if sz =? n then Ok (mk_span ext ptr sz) else Contract
+  | None => Ok (mk_span ext ptr sz)
+  end.
 
 (* first<Count>() / last<Count>(): static_assert(Count <= Extent) -- vacuous for a dynamic-extent span -- and
    TETL_PRECONDITION(Count <= size()) (run-time check added by the fix commit of the C19 review; a span of static
